@@ -22,6 +22,8 @@ for p in sorted(glob.glob(os.path.join(V, "seeded", "*", "meta.json"))):
             first = ls[0].strip()[:150]
             break
     hist = m.get("strengthened", "")
+    if m.get("note"):
+        caught = (caught + " - " if caught != "NOT CAUGHT" else "not claimed - ") + m["note"][:400]
     rows.append(f"| {m['id']} | {m['breaks_property']} | {m.get('summary','')[:160].replace('|','/')} | "
                 f"{m.get('needs_to_manifest','')[:170].replace('|','/')} | {caught}{' (after: ' + hist + ')' if hist else ''} | {first.replace('|','/')} |")
 seeded = "\n".join(rows)
